@@ -361,6 +361,30 @@ def F21():
         return 'per-file rescale: values of the rescaled file %s come out as %s (dtype %s)' % (list(want), list(got), data.dtype)
 
 
+def F22():
+    import tempfile, shutil, subprocess, textwrap
+    d = tempfile.mkdtemp(prefix='f22_')
+    try:
+        p = os.path.join(d, 'a.nii')
+        data = (np.arange(16 * 16 * 8, dtype=np.int16) * 7 % 1000).reshape(16, 16, 8)
+        img = nb.Nifti1Image(data, np.eye(4)); img.header.set_dim_info(None, None, 2)
+        NiftiWrapper(img, make_empty=True).to_filename(p)
+        code = textwrap.dedent('''
+            import sys, argparse, warnings; warnings.simplefilter('ignore')
+            sys.path.insert(0, %r)
+            from dcmstack import nitool_cli
+            rc = nitool_cli.inject(argparse.Namespace(dest_nii=[%r], classification=['global','const'], key=['K'], values=['abc'], force_overwrite=False, type=None))
+            sys.exit(rc or 0)''' % (os.path.join(REPO, 'src'), p))
+        r = subprocess.run([sys.executable, '-c', code], capture_output=True)
+        if r.returncode != 0:
+            return 'nitool inject on an uncompressed .nii: process exit status %d (SIGBUS = -7 / 135)' % r.returncode
+        back = np.asanyarray(nb.load(p).dataobj)
+        if not np.array_equal(back, data):
+            return 'nitool inject on an uncompressed .nii corrupted the voxel data'
+    finally:
+        shutil.rmtree(d)
+
+
 # ---- open findings (recorded in known-findings.txt, not repaired): these report PRESENT on the current tree
 def N1():
     e = DcmMetaExtension.make_empty((2, 2, 2, 1), np.eye(4), None, 2)
@@ -461,7 +485,7 @@ def deepcopy_ext(e):
 
 
 OPEN = ['N1', 'N2', 'N3', 'N4', 'N6', 'N8', 'N9', 'N11']
-ALL = ['F21', 'F20', 'F19', 'F18', 'F17', 'F16', 'F15', 'F1', 'F2', 'F3', 'F4', 'F5', 'F6', 'F7', 'F8', 'F9', 'F10', 'F11', 'F12', 'F13', 'F14']
+ALL = ['F22', 'F21', 'F20', 'F19', 'F18', 'F17', 'F16', 'F15', 'F1', 'F2', 'F3', 'F4', 'F5', 'F6', 'F7', 'F8', 'F9', 'F10', 'F11', 'F12', 'F13', 'F14']
 
 if __name__ == '__main__':
     which = sys.argv[1:] or ALL
